@@ -1,6 +1,6 @@
 (** One entry point for the correspondence: checker id -> case -> verdict. *)
 From Coq Require Import ZArith List Bool.
-From Comet Require Import Base.Parse Check.C19 Check.C18 Check.VecHist Check.Codec Check.BM25Hist Check.MetaHist Check.HybridHist Check.StoreHist Check.LockHist Check.HNSWHist Check.C20.
+From Comet Require Import Base.Parse Check.C19 Check.C18 Check.VecHist Check.Codec Check.BM25Hist Check.MetaHist Check.HybridHist Check.StoreHist Check.LockHist Check.HNSWHist Check.C20 Check.C15 Check.ConcHist.
 Import ListNotations.
 Open Scope Z_scope.
 
@@ -32,6 +32,10 @@ Definition dispatch (id : Z) (s : list Z) : list Z :=
   else if id =? 2001 then run_P chk_kmeans s
   else if id =? 2002 then run_P chk_quant s
   else if id =? 2003 then run_P chk_train_twice s
+  else if id =? 1500 then run_P chk_recall s
+  else if id =? 1501 then run_P chk_order s
+  else if id =? 1100 then run_P chk_conchist s
+  else if id =? 1101 then run_P chk_pick_schedule s
   else [8].
 
 (** used by cases.v: the list of case numbers whose verdict is not OK *)
